@@ -229,6 +229,7 @@ Proof.
   - destruct (if counts_as_failure e then count_failure c (counter s) (limit s) else (counter s, limit s)) as [n lim].
     split; auto. split; auto. cbn. intros Hd. apply HA3 in Hd. discriminate.
   - split; auto. split; auto. cbn. intros Hd. apply HA3 in Hd. discriminate.
+  - split; auto. split; auto. cbn. intros Hd. apply HA3 in Hd. discriminate.
   - split; auto.
 Qed.
 
@@ -418,6 +419,7 @@ Proof.
     split; auto.
   - split; auto.
   - split; auto.
+  - split; auto.
 Qed.
 
 Lemma invAB_step c s l : invA s /\ invB s -> invA (step c s l) /\ invB (step c s l).
@@ -440,7 +442,8 @@ Qed.
 Definition invC (c : cfg) (s : state) : Prop :=
   (maxf c = None -> limit s = false) /\
   (cp s = CDone -> has_to_stop s = false ->
-     forallb is_dead (workers s) = true /\ queue s = [] /\ dropped s = []).
+     forallb is_dead (workers s) = true /\ queue s = [] /\ dropped s = []) /\
+  (cp s = CEmpty -> forallb is_dead (workers s) = true).
 
 Lemma all_dead_nth ws i w : forallb is_dead ws = true -> nth_error ws i = Some w -> w = WDead.
 Proof.
@@ -459,36 +462,42 @@ Qed.
 
 Lemma invC_step c s l : drain_fix c = true -> invA s -> invC c s -> invC c (step c s l).
 Proof.
-  intros Hfix [_ [_ HA3]] [HC1 HC2]. destruct l; cbn [step].
+  intros Hfix [_ [_ HA3]] [HC1 [HC2 HC3]]. destruct l; cbn [step].
   - unfold consumer_step. destruct (cp s) eqn:Ecp.
     + destruct (queue s) as [|e q] eqn:Eq.
-      * split; auto. cbn. discriminate.
+      * split; auto. split; cbn; intros H; discriminate H.
       * destruct (stop s) eqn:Es.
-        -- split; auto. cbn. unfold has_to_stop. cbn. discriminate.
-        -- split; auto. cbn. discriminate.
+        -- split; auto. split; cbn; [unfold has_to_stop; cbn; intros _ H; discriminate H | intros H; discriminate H].
+        -- split; auto. split; cbn; intros H; discriminate H.
     + destruct (if counts_as_failure e then count_failure c (counter s) (limit s) else (counter s, limit s))
         as [n lim] eqn:E.
       assert (Hl : maxf c = None -> lim = false).
       { intros Hm. destruct (counts_as_failure e).
         - unfold count_failure in E. rewrite Hm in E. inversion E; subst. auto.
         - inversion E; subst. auto. }
-      split; [exact Hl|]. cbn. unfold has_to_stop. cbn.
-      destruct ((if is_interrupt e || stop s then true else stop s) || lim); [intros _ H; discriminate H | intros H; discriminate H].
+      split; [exact Hl|]. split; cbn; unfold has_to_stop; cbn.
+      * destruct ((if is_interrupt e || stop s then true else stop s) || lim); [intros _ H; discriminate H | intros H; discriminate H].
+      * destruct ((if is_interrupt e || stop s then true else stop s) || lim); intros H; discriminate H.
     + split; auto. cbn. rewrite Hfix.
-      destruct (forallb is_dead (workers s)) eqn:Ed; cbn; [|discriminate].
-      destruct (queue s) eqn:Eq; [|discriminate]. intros _ _. split; auto. split; auto.
-      destruct (dropped s) eqn:Edr; auto. assert (CAlive = CDone) by (apply HA3; discriminate). discriminate.
-    + split; auto.
+      destruct (forallb is_dead (workers s)) eqn:Ed; split; intros H; try discriminate H; auto.
+    + (* CEmpty: all workers are dead; leave iff the queue is empty *)
+      specialize (HC3 eq_refl).
+      split; auto. cbn. destruct (queue s) eqn:Eq; split; intros H; try discriminate H.
+      intros _. split; auto. split; auto.
+      destruct (dropped s) eqn:Edr; auto. assert (CEmpty = CDone) by (apply HA3; discriminate). discriminate.
+    + split; auto. rewrite Ecp. split; [intros _; apply HC2; reflexivity | intros H; discriminate H].
   - destruct (nth_error (workers s) i) eqn:Ei; [|split; auto].
     destruct (worker_step_flags c s i w) as (F1 & F2 & F3).
-    split; [rewrite F2; auto|]. rewrite F3. unfold has_to_stop. rewrite F1, F2. intros Hcp Hs.
-    destruct (HC2 Hcp Hs) as (D1 & D2 & D3).
-    assert (w = WDead) by (eapply all_dead_nth; eauto). subst w. cbn. auto.
-  - split; auto. cbn. unfold has_to_stop. cbn. discriminate.
+    split; [rewrite F2; auto|]. rewrite F3. unfold has_to_stop. rewrite F1, F2. split.
+    + intros Hcp Hs. destruct (HC2 Hcp Hs) as (D1 & D2 & D3).
+      assert (w = WDead) by (eapply all_dead_nth; eauto). subst w. cbn. auto.
+    + intros Hcp. specialize (HC3 Hcp).
+      assert (w = WDead) by (eapply all_dead_nth; eauto). subst w. cbn. auto.
+  - split; auto. split; cbn; [unfold has_to_stop; cbn; intros _ H; discriminate H | exact HC3].
 Qed.
 
 Lemma invC_init c n os : invC c (init n os).
-Proof. split; auto. cbn. discriminate. Qed.
+Proof. split; auto. split; cbn; intros H; discriminate H. Qed.
 
 Definition invABC c s := invA s /\ invB s /\ invC c s.
 
@@ -512,7 +521,7 @@ Lemma closed_unless_stopped c sched n os :
   let s := run c sched (init n os) in
   cp s = CDone -> has_to_stop s = false -> all_closed (trace s) = true.
 Proof.
-  intros Hfix s Hcp Hs. destruct (invABC_run c sched n os Hfix) as (HA & [_ HB] & [_ HC]).
+  intros Hfix s Hcp Hs. destruct (invABC_run c sched n os Hfix) as (HA & [_ HB] & [_ [HC _]]).
   fold s in HA, HB, HC. destruct (HC Hcp Hs) as (D1 & D2 & D3).
   unfold all_closed. apply forallb_forall. intros id Hid. apply in_started_ids in Hid.
   assert (Hh : hist s = trace s) by (unfold hist, trace; rewrite D2, app_nil_r; reflexivity).
@@ -560,7 +569,7 @@ Lemma race_refuted_before_fix :
 Proof. vm_compute. repeat split; reflexivity. Qed.
 (* the same schedule on the code as it is now *)
 Lemma race_schedule_now :
-  let s := run (cfg_now None) (sched_race ++ [C; C; C; C]) (init 1 [op_ok 0 2]) in
+  let s := run (cfg_now None) (sched_race ++ [C; C; C; C; C; C]) (init 1 [op_ok 0 2]) in
   cp s = CDone /\ has_to_stop s = false /\ trace s = [ScStart 0; ScFinish 0 SUCCESS].
 Proof. vm_compute. repeat split; reflexivity. Qed.
 
